@@ -291,7 +291,7 @@ type evalCtx struct {
 	honFP   string
 	sm      *sigMemo         // oracle-side memo of signature checks (pure function)
 	libSig  map[string]bool  // memo of the library's single-signature check, used only for the oracle/library comparison
-	lite    bool             // skip the two JSON paths (thorough-tier operator pairs; JSON invariance is decided on the single-mutation ladder)
+	lite    bool             // thorough-tier operator pairs: skip the two JSON paths and the Verify of the re-encoded copy (both are decided on the single-mutation ladder)
 	summary *strings.Builder // when set, the observable outcome is written here (determinism check, replay)
 }
 
@@ -498,7 +498,7 @@ func evaluate(ec *evalCtx, id caseID, h *EH, single *op) []violation {
 	// ---- Verify against every honest header of the chain as the trusted one
 	for k, tr := range ec.trusted {
 		untrusted := []*EH{h}
-		if viaBin != nil {
+		if viaBin != nil && !ec.lite {
 			untrusted = append(untrusted, viaBin)
 		}
 		var first verdict
@@ -961,6 +961,13 @@ func TestVerifC16(t *testing.T) {
 		}
 		return fmt.Sprintf("deadline hit: %d of %d single-mutation items and %d of %d pair items done", doneSingles, singles, donePairs, len(items)-singles)
 	}())
+	rep.Set("rules_applied", map[string]string{
+		"single mutations x full repair ladder": "Validate vs predicate; binary, JSON and binary->JSON->binary re-encoding (verdict, Hash, transportability); MsgID per block; Verify of the case and of its binary re-encoding against every honest header as trusted",
+		"operator pairs x short repair ladder (none, fixraw+fixcommit, fixraw+fixcommit+resign(all))": map[bool]string{
+			false: "same rules as single mutations (pairs over the core alphabet)",
+			true:  "pairs over the whole alphabet except the status vectors; Validate vs predicate, binary re-encoding, MsgID, Verify of the case (JSON paths and Verify of the re-encoded copy are decided on the single-mutation ladder only)",
+		}[thorough],
+	})
 	rep.Set("validate_outcomes", total.validateClass)
 	rep.Set("verify_outcomes", total.verifyClass)
 	rep.Set("reencode_outcomes", total.reencClass)
@@ -1130,11 +1137,13 @@ func replayC16(t *testing.T, rep *vx.Report, path string) {
 	rep.SetExhaustive(false)
 	if len(last) > 0 {
 		fmt.Printf("REPLAY-RESULT violation reproduced 5/5: %v\n", last)
+		fmt.Printf("VERIF-NOTE REPLAY-RESULT violation reproduced 5/5: %v\n", last)
 		for _, s := range last {
 			rep.Violation(s, "reproduced from replay file", doc.Replay)
 		}
 	} else {
 		fmt.Println("REPLAY-RESULT no violation")
+		fmt.Println("VERIF-NOTE REPLAY-RESULT no violation")
 	}
 	if rep.Finish() > 0 {
 		t.Fail()
